@@ -1960,7 +1960,9 @@ def monitor(lines, out, props):
                       # after a registration request whose outcome the reply does not spell out (sdv RegisterDatapoints
                       # answered with an error: the entries before the offending one stay registered) a path that looks
                       # new may carry an id that request handed out
-                      if next_id is not None and i != next_id and not (resynced and i < next_id):
+                      # new may carry an id that request handed out, and a new one may lie beyond ids it consumed: from then
+                      # on the oracle cannot predict ids (model and implementation are still compared id by id)
+                      if next_id is not None and i != next_id and not resynced:
                           fails.append("C16-ids: new signal got id %d, expected %d (refusals must not consume ids)" % (i, next_id))
                       next_id = i + 1 if next_id is None or i >= next_id else next_id
                       paths[i] = d["path"]
